@@ -58,21 +58,15 @@ Definition latest_tag (r : gitrepo) (f : fmt) : option (str * N) := latest_tag_i
 
 Definition find_commit (r : gitrepo) (c : N) : option commit := find (fun x => c_id x =? c) (g_commits r).
 
-(* ancestors-or-self of c: closure over parents, fuel = number of commits *)
+(* ancestors-or-self of c among the listed commits.  The list is in topological order (children before parents), so one pass in
+   list order suffices: a commit already marked marks its parents; a commit not marked when it is reached never will be. *)
 Definition mem (x : N) (l : list N) : bool := existsb (N.eqb x) l.
-Fixpoint closure (r : gitrepo) (fuel : nat) (frontier seen : list N) : list N :=
-  match fuel with
-  | O => seen
-  | S f =>
-    let new := filter (fun x => negb (mem x seen)) frontier in
-    match new with
-    | [] => seen
-    | _ => let seen' := seen ++ nodup N.eq_dec new in
-           let next := flat_map (fun x => match find_commit r x with Some c => c_parents c | None => [] end) new in
-           closure r f next seen'
-    end
+Fixpoint mark (cs : list commit) (seen : list N) : list N :=
+  match cs with
+  | [] => seen
+  | x :: cs' => if mem (c_id x) seen then mark cs' (seen ++ c_parents x) else mark cs' seen
   end.
-Definition ancestors (r : gitrepo) (c : N) : list N := closure r (S (length (g_commits r))) [c] [].
+Definition ancestors (r : gitrepo) (c : N) : list N := mark (g_commits r) [c].
 
 (* `git rev-list --count <tag>..HEAD` *)
 Definition distance (r : gitrepo) (c : N) : N :=
